@@ -271,3 +271,121 @@ pub enum MExecDef {
 }
 
 pub type MOpDoc = Vec<MExecDef>;
+
+// ---------------------------------------------------------------------------
+// string visitors (used to switch string features on/off after generation)
+
+pub fn map_value_strings(v: &mut MValue, f: &mut dyn FnMut(&mut String)) {
+    match v {
+        MValue::Str(s) => f(s),
+        MValue::List(vs) => vs.iter_mut().for_each(|v| map_value_strings(v, f)),
+        MValue::Object(fs) => fs.iter_mut().for_each(|(_, v)| map_value_strings(v, f)),
+        _ => {}
+    }
+}
+
+fn map_dirs(ds: &mut [MDirective], f: &mut dyn FnMut(&mut String)) {
+    for d in ds {
+        for (_, v) in d.args.iter_mut() {
+            map_value_strings(v, f);
+        }
+    }
+}
+
+fn map_input_value(v: &mut MInputValue, f: &mut dyn FnMut(&mut String)) {
+    if let Some(d) = &mut v.desc {
+        f(d);
+    }
+    if let Some(d) = &mut v.default {
+        map_value_strings(d, f);
+    }
+    map_dirs(&mut v.directives, f);
+}
+
+pub fn map_ts_strings(doc: &mut [MTsDef], f: &mut dyn FnMut(&mut String)) {
+    for d in doc {
+        match d {
+            MTsDef::Schema(s) | MTsDef::SchemaExt(s) => {
+                if let Some(d) = &mut s.desc {
+                    f(d);
+                }
+                map_dirs(&mut s.directives, f);
+            }
+            MTsDef::Type(t) | MTsDef::TypeExt(t) => {
+                if let Some(d) = &mut t.desc {
+                    f(d);
+                }
+                map_dirs(&mut t.directives, f);
+                for fl in t.fields.iter_mut() {
+                    if let Some(d) = &mut fl.desc {
+                        f(d);
+                    }
+                    for a in fl.args.iter_mut() {
+                        map_input_value(a, f);
+                    }
+                    map_dirs(&mut fl.directives, f);
+                }
+                for v in t.values.iter_mut() {
+                    if let Some(d) = &mut v.desc {
+                        f(d);
+                    }
+                    map_dirs(&mut v.directives, f);
+                }
+                for v in t.input_fields.iter_mut() {
+                    map_input_value(v, f);
+                }
+            }
+            MTsDef::Directive(d) => {
+                if let Some(x) = &mut d.desc {
+                    f(x);
+                }
+                for a in d.args.iter_mut() {
+                    map_input_value(a, f);
+                }
+            }
+        }
+    }
+}
+
+fn map_sel_strings(sels: &mut [MSelection], f: &mut dyn FnMut(&mut String)) {
+    for s in sels {
+        match s {
+            MSelection::Field(fl) => {
+                for (_, v) in fl.args.iter_mut() {
+                    map_value_strings(v, f);
+                }
+                map_dirs(&mut fl.directives, f);
+                if let Some(s) = &mut fl.sel {
+                    map_sel_strings(s, f);
+                }
+            }
+            MSelection::Spread { directives, .. } => map_dirs(directives, f),
+            MSelection::Inline { directives, sel, .. } => {
+                map_dirs(directives, f);
+                map_sel_strings(sel, f);
+            }
+        }
+    }
+}
+
+pub fn map_op_strings(doc: &mut [MExecDef], f: &mut dyn FnMut(&mut String)) {
+    for d in doc {
+        match d {
+            MExecDef::Op(o) => {
+                for v in o.vars.iter_mut() {
+                    if let Some(d) = &mut v.default {
+                        map_value_strings(d, f);
+                    }
+                    map_dirs(&mut v.directives, f);
+                }
+                map_dirs(&mut o.directives, f);
+                map_sel_strings(&mut o.sel, f);
+            }
+            MExecDef::Frag(fr) => {
+                map_dirs(&mut fr.directives, f);
+                map_sel_strings(&mut fr.sel, f);
+            }
+            MExecDef::Import(_) => {}
+        }
+    }
+}
